@@ -8,7 +8,8 @@ from jv import drive, dsl, model as M, real, rulegen as RG
 LEVEL = "exploration"
 RULE = ("S-syn listings (lower-case hex addresses incl. add0/dec0-style ones, mnemonics add/dec/fadd) x rules with every "
         "operator kind in leading position, operand items in excess of the instruction's operand count, and the shipped "
-        "tests/macros/jasm_macros.yaml @any as mnemonic / operand (0-4 of them) / $deref value. Monitors per execution: "
+        "tests/macros/jasm_macros.yaml @any as mnemonic / operand (0-4 of them) / $deref value, and immediates named in the "
+        "'<hex>h' spelling. Monitors per execution: "
         "(a) every full-text hit of all-matches and first-match mode is the concatenation of whole consecutive records of "
         "the stream observed in the same run (strict); (b) address-only mode reports, element by element, the address of the "
         "first covered record (strict); (c) for rules without times / different-length alternatives the hit covers exactly "
@@ -25,7 +26,7 @@ MACROS = os.path.join(real.JASM_REPO, "tests", "macros", "jasm_macros.yaml")
 def feat(rng):
     r = rng.random()
     if r < 0.45:
-        return RG.Feat(operands=0.85, any=0.35, excess_ops=0.35, deref=0.4, groups=0.15, nots=0.1,
+        return RG.Feat(operands=0.85, any=0.35, excess_ops=0.35, deref=0.4, groups=0.15, nots=0.1, hexh=0.35,
                        times_item=0.15, max_depth=1, max_spine=rng.choice([1, 2, 3]))
     return RG.Feat(operands=0.7, groups=0.3, nots=0.2, onots=0.1, ogroups=0.15, icaps=0.1, ocaps=0.1, times_item=0.15,
                    group_times=0.2, excess_ops=0.2, max_depth=2, max_spine=rng.choice([1, 2, 3]))
@@ -52,7 +53,8 @@ def monitor(driver, doc, text, prep, o):
     if o.status != "ok":
         return
     case = dsl.case_doc(text, prep, "c07")
-    has_any = "@any" in text
+    import re
+    has_any = "@any" in text or re.search(r"(?m)^\s*- '?[0-9a-f]+h'?$", text) is not None    # wildcard-like elements: judged against R-dsl here
     # (a) alignment of all-matches hits
     for n, w in enumerate(o.real_windows):
         if w is None:
@@ -106,11 +108,38 @@ def monitor(driver, doc, text, prep, o):
             ctx.event("model_disagreement_left_to_C01_C05")
 
 
+def wildcard_position_stratum(ctx, d, n):
+    """Wildcard-like operand items ('<hex>h' literals, @any) written at an EARLIER position than the operand that
+    contains the constant: a correct element stays inside its own operand, so the instruction must not match through it."""
+    import re
+    rng = ctx.rng
+    done = 0
+    while done < n:
+        prep = d.new_listing(rng.choice(["mixed", "tiny", "dups"]))
+        cands = []
+        for idx, (_, mnem, ops) in enumerate(prep.expect):
+            for p, f in enumerate(ops):
+                m = re.search(r"0x([0-9a-f]+)", f)
+                if m and p >= 1 and m.group(1) not in ("a", "b", "c", "d"):
+                    cands.append((idx, mnem, p, m.group(1) + "h"))
+        rng.shuffle(cands)
+        for idx, mnem, p, name in cands[:6]:
+            q = rng.randrange(0, p)                      # earlier position than the operand holding the constant
+            ops = ["@any"] * q + [name]
+            if rng.random() < 0.3:
+                ops.append("@any")
+            d.run_pattern([{mnem: ops}], "base", True)
+            done += 1
+        if not cands:
+            done += 1
+
+
 def run_shard(ctx):
     d = drive.Driver(ctx, feat, flags="random", styles=("mixed", "runs", "dups", "tiny"), judge_model=False, extra=monitor,
                      interesting=None)
     d.macros = [MACROS]
     d.loop(2500, 60000)
+    wildcard_position_stratum(ctx, d, ctx.share(400, 8000))
 
 
 def replay(ctx, case):
